@@ -119,7 +119,11 @@ func (db *DB) Merge() error {
 				return err
 			}
 			// 比较内存中索引的最新数据, 判断是否为有效数据
+			// 必须持有读锁查询索引: 未提交批处理的提前刷盘会立即修改索引,
+			// 若据此将旧记录判定为无效而不重写, 批处理最终未提交时该 key 的数据会丢失
+			db.mu.RLock()
 			pos := db.index.Get(logRecord.Key)
+			db.mu.RUnlock()
 			if pos != nil && pos.Fid == dataFile.ID &&
 				pos.Offset == logRecordPos.Offset && pos.BlockID == logRecordPos.BlockID {
 				// 重写后的记录不再属于任何批次: 所属批次的完成标识记录不会被重写,
